@@ -136,6 +136,8 @@ pub struct Stage {
     pub skipped_ops: u64,
     pub out_of_scope: Option<String>,
     pub log_count: usize,
+    /// result of the last io::Result-returning call (mp.println / mp.clear): Some(is_err)
+    pub last_io_err: Option<bool>,
 }
 
 pub struct OpResult {
@@ -197,6 +199,7 @@ impl Stage {
             skipped_ops: 0,
             out_of_scope: None,
             log_count: 0,
+            last_io_err: None,
         }
     }
 
@@ -334,6 +337,12 @@ impl Stage {
                 verif_simrt::sched::advance_quiet(op.n0());
                 return res;
             }
+            "sleep" => {
+                // blocks the calling simulated thread; other threads (steady tickers) run meanwhile
+                verif_simrt::sched::sleep(op.n0());
+                res.flushed = self.term.flushes() > flush0;
+                return res;
+            }
             "new" | "add" => {
                 // n[0]: 9 = standalone, 0 add, 1 insert(i), 2 insert_from_back(i), 3 insert_before(ref), 4 insert_after(ref)
                 let kind = op.n0();
@@ -447,12 +456,13 @@ impl Stage {
                     self.skipped_ops += 1;
                     return res;
                 }
+                let mut io_err: Option<bool> = None;
                 let pr = call(|| match k {
                     "mp_println" => {
-                        let _ = mp.println(&text);
+                        io_err = Some(mp.println(&text).is_err());
                     }
                     "mp_clear" => {
-                        let _ = mp.clear();
+                        io_err = Some(mp.clear().is_err());
                     }
                     "mp_suspend" => mp.suspend(|| {
                         for l in text.lines() {
@@ -470,6 +480,7 @@ impl Stage {
                 if let Err(p) = pr {
                     res.panic = Some(p);
                 }
+                self.last_io_err = io_err;
                 match k {
                     "mp_println" => {
                         self.mark_vanishable();
@@ -584,6 +595,8 @@ impl Stage {
             "finish" => apply_finish(&pb, a, &text),
             "finish_using_style" => pb.finish_using_style(),
             "force_draw" => pb.force_draw(),
+            "enable_steady_tick" => pb.enable_steady_tick(std::time::Duration::from_nanos(a.max(1))),
+            "disable_steady_tick" => pb.disable_steady_tick(),
             "println" => pb.println(&text),
             "suspend" => pb.suspend(|| {
                 for l in text.lines() {
